@@ -133,6 +133,7 @@ type World struct {
 	Cfg      Config
 	Gateway  Account
 	GatewayContract common.Address // address the forwarder gets when user 2 deploys it with nonce 0
+	OuterContract   common.Address // a second forwarder (user 1, nonce 0) used as the OUTER frame of nested calls
 	Ops      []*Operator
 	Stakers  [][]byte // 20-byte client chain addresses
 	Natives  []Account
@@ -172,6 +173,7 @@ func NewWorld(cfg Config) *World {
 	w := &World{Cfg: cfg}
 	w.Gateway = mkAccount(cfg.Seed, "gateway", 0)
 	w.GatewayContract = crypto.CreateAddress(mkAccount(cfg.Seed, "user", 2).Eth, 0)
+	w.OuterContract = crypto.CreateAddress(mkAccount(cfg.Seed, "user", 1).Eth, 0)
 	for i := 0; i < cfg.NOps; i++ {
 		op := &Operator{Account: mkAccount(cfg.Seed, "op", i), Idx: i}
 		for k := 0; k < ConsKeyPool; k++ {
